@@ -28,6 +28,8 @@ type DM struct {
 	RLog *simkit.Backend
 	// CRC selects whether handles expose PutCRC (as GCS does)
 	CRC bool
+	// VMetPlain: the label store is a plain storage.Store (no PutCRC, no versions), as a local-directory context's is
+	VMetPlain bool
 }
 
 func newDM(rc *RunCtx) *DM {
@@ -46,6 +48,9 @@ func (d *DM) wrap(h *simkit.Handle) storage.Store {
 
 // Stores returns the context stores as seen by one client.
 func (d *DM) Stores(c *simkit.Client) context2.Stores {
+	if d.VMetPlain {
+		return context2.NewStores(d.wrap(c.Store(d.Wal)), d.wrap(c.Store(d.RLog)), d.wrap(c.Store(d.Blob)), d.wrap(c.Store(d.Meta)), simkit.NoCRC{Store: c.Store(d.VMet)})
+	}
 	return context2.NewStores(d.wrap(c.Store(d.Wal)), d.wrap(c.Store(d.RLog)), d.wrap(c.Store(d.Blob)), d.wrap(c.Store(d.Meta)), c.Store(d.VMet))
 }
 
